@@ -1,0 +1,383 @@
+// SPDX-License-Identifier: GPL-2.0-only
+
+//! Verification hook (only compiled with `--cfg stgit_verif`).
+//!
+//! `stg verif-eval` reads one request per line on stdin and prints one canonical
+//! result per line on stdout. It gives an external harness direct access to the pure
+//! functions of the patch name / locator / range machinery so that their behaviour can
+//! be compared with a formal model. Strings travel as hex of their UTF-8 bytes; fields
+//! are separated by tabs; lists are comma separated (`-` is the empty list).
+
+use std::{collections::BTreeMap, io::BufRead, io::Write, rc::Rc, str::FromStr};
+
+use super::{
+    PatchId, PatchLocator, PatchName, PatchOffsetAtom, PatchRange, PatchRangeBounds,
+    RangeConstraint,
+};
+use crate::stack::{PatchState, StackStateAccess};
+
+struct FakeStack {
+    applied: Vec<PatchName>,
+    unapplied: Vec<PatchName>,
+    hidden: Vec<PatchName>,
+    oids: BTreeMap<PatchName, gix::ObjectId>,
+}
+
+impl<'repo> StackStateAccess<'repo> for FakeStack {
+    fn applied(&self) -> &[PatchName] {
+        &self.applied
+    }
+    fn unapplied(&self) -> &[PatchName] {
+        &self.unapplied
+    }
+    fn hidden(&self) -> &[PatchName] {
+        &self.hidden
+    }
+    fn get_patch(&self, _patchname: &PatchName) -> &PatchState<'repo> {
+        unimplemented!("verif fake stack has no commits")
+    }
+    fn has_patch(&self, patchname: &PatchName) -> bool {
+        self.oids.contains_key(patchname)
+    }
+    fn top(&self) -> &Rc<gix::Commit<'repo>> {
+        unimplemented!("verif fake stack has no commits")
+    }
+    fn head(&self) -> &Rc<gix::Commit<'repo>> {
+        unimplemented!("verif fake stack has no commits")
+    }
+    fn get_patch_commit_id(&self, patchname: &PatchName) -> gix::ObjectId {
+        self.oids[patchname]
+    }
+}
+
+fn unhex(s: &str) -> Option<String> {
+    if s == "-" {
+        return Some(String::new());
+    }
+    if s.len() % 2 != 0 {
+        return None;
+    }
+    let mut bytes = Vec::with_capacity(s.len() / 2);
+    for i in (0..s.len()).step_by(2) {
+        bytes.push(u8::from_str_radix(s.get(i..i + 2)?, 16).ok()?);
+    }
+    String::from_utf8(bytes).ok()
+}
+
+fn hex(s: &str) -> String {
+    if s.is_empty() {
+        return "-".to_string();
+    }
+    let mut out = String::with_capacity(s.len() * 2);
+    for b in s.as_bytes() {
+        out.push_str(&format!("{b:02x}"));
+    }
+    out
+}
+
+fn unhex_list(s: &str) -> Option<Vec<String>> {
+    if s == "-" {
+        Some(vec![])
+    } else {
+        s.split(',').map(unhex).collect()
+    }
+}
+
+/// Raw (unvalidated) patch names: the harness is responsible for the names it injects.
+fn raw_names(s: &str) -> Option<Vec<PatchName>> {
+    Some(unhex_list(s)?.into_iter().map(PatchName).collect())
+}
+
+fn hex_names(names: &[PatchName]) -> String {
+    if names.is_empty() {
+        "-".to_string()
+    } else {
+        names
+            .iter()
+            .map(|pn| hex(&pn.0))
+            .collect::<Vec<_>>()
+            .join(",")
+    }
+}
+
+fn opt_num<T: std::fmt::Display>(n: &Option<T>) -> String {
+    match n {
+        Some(n) => format!("{n}"),
+        None => "_".to_string(),
+    }
+}
+
+fn show_atoms(atoms: &[PatchOffsetAtom]) -> String {
+    let mut s = String::from("[");
+    for (i, a) in atoms.iter().enumerate() {
+        if i > 0 {
+            s.push(' ');
+        }
+        match a {
+            PatchOffsetAtom::Plus(n) => s.push_str(&format!("+{}", opt_num(n))),
+            PatchOffsetAtom::Tilde(n) => s.push_str(&format!("~{}", opt_num(n))),
+        }
+    }
+    s.push(']');
+    s
+}
+
+fn show_loc(loc: &PatchLocator) -> String {
+    let id = match &loc.id {
+        PatchId::Name(pn) => format!("name:{}", hex(&pn.0)),
+        PatchId::Base => "base".to_string(),
+        PatchId::Top => "top".to_string(),
+        PatchId::BelowLast(n) => format!("belowlast:{}", opt_num(n)),
+        PatchId::BelowTop(n) => format!("belowtop:{}", opt_num(n)),
+    };
+    format!("({id} {})", show_atoms(&loc.offsets.atoms()))
+}
+
+fn show_opt_loc(loc: &Option<PatchLocator>) -> String {
+    match loc {
+        Some(loc) => show_loc(loc),
+        None => "_".to_string(),
+    }
+}
+
+fn show_range(range: &PatchRange) -> String {
+    match range {
+        PatchRange::Single(loc) => format!("single{}", show_loc(loc)),
+        PatchRange::Range(PatchRangeBounds { begin, end }) => {
+            format!("range({} {})", show_opt_loc(begin), show_opt_loc(end))
+        }
+    }
+}
+
+fn fake_stack(a: &str, u: &str, h: &str, oids: &str) -> Option<FakeStack> {
+    let applied = raw_names(a)?;
+    let unapplied = raw_names(u)?;
+    let hidden = raw_names(h)?;
+    let oid_strs: Vec<&str> = if oids == "-" {
+        vec![]
+    } else {
+        oids.split(',').collect()
+    };
+    let mut map = BTreeMap::new();
+    let all = applied.iter().chain(unapplied.iter()).chain(hidden.iter());
+    for (i, pn) in all.enumerate() {
+        let oid = gix::ObjectId::from_hex(oid_strs.get(i)?.as_bytes()).ok()?;
+        map.insert(pn.clone(), oid);
+    }
+    Some(FakeStack {
+        applied,
+        unapplied,
+        hidden,
+        oids: map,
+    })
+}
+
+fn loc_err_kind(e: &super::locator::Error) -> &'static str {
+    use super::locator::Error as E;
+    match e {
+        E::InvalidPatchLocator(_) => "InvalidPatchLocator",
+        E::PatchSimilar { .. } => "PatchNotKnown",
+        E::PatchNotKnown { .. } => "PatchNotKnown",
+        E::InvalidPatchIndex(_) => "InvalidPatchIndex",
+        E::InvalidPatchOffset { .. } => "InvalidPatchOffset",
+        E::InvalidOffsetFrom(_) => "InvalidOffsetFrom",
+        E::BaseNeedsOffset => "BaseNeedsOffset",
+        E::BaseNeedsPositiveOffset => "BaseNeedsPositiveOffset",
+        E::NoLastPatch => "NoLastPatch",
+        E::AmbiguousCommitId { .. } => "AmbiguousCommitId",
+        E::Ancestors(_) => "Ancestors",
+    }
+}
+
+fn range_err_kind(e: &super::range::Error) -> String {
+    use super::range::Error as E;
+    match e {
+        E::Name(super::name::Error::PatchNotAllowed { .. }) => "PatchNotAllowed".to_string(),
+        E::Name(_) => "InvalidPatchName".to_string(),
+        E::Locator(e) => loc_err_kind(e).to_string(),
+        E::InvalidPatchRange(_) => "InvalidPatchRange".to_string(),
+        E::Duplicate { .. } => "Duplicate".to_string(),
+        E::NotContiguous { .. } => "NotContiguous".to_string(),
+        E::BoundaryOrder { .. } => "BoundaryOrder".to_string(),
+    }
+}
+
+fn constraint(s: &str) -> Option<RangeConstraint> {
+    Some(match s {
+        "All" => RangeConstraint::All,
+        "AllWithAppliedBoundary" => RangeConstraint::AllWithAppliedBoundary,
+        "Visible" => RangeConstraint::Visible,
+        "VisibleWithAppliedBoundary" => RangeConstraint::VisibleWithAppliedBoundary,
+        "Applied" => RangeConstraint::Applied,
+        "Unapplied" => RangeConstraint::Unapplied,
+        "Hidden" => RangeConstraint::Hidden,
+        _ => return None,
+    })
+}
+
+fn eval(fields: &[&str]) -> Option<String> {
+    Some(match *fields.first()? {
+        "validate" => match PatchName::validate(&unhex(fields.get(1)?)?) {
+            Ok(()) => "ok".to_string(),
+            Err(_) => "err".to_string(),
+        },
+        "fromstr" => match PatchName::from_str(&unhex(fields.get(1)?)?) {
+            Ok(pn) => format!("ok {}", hex(&pn.0)),
+            Err(_) => "err".to_string(),
+        },
+        "make" => {
+            let lower = *fields.get(1)? == "1";
+            let limit = match *fields.get(2)? {
+                "-" => None,
+                n => Some(n.parse::<usize>().ok()?),
+            };
+            let raw = unhex(fields.get(3)?)?;
+            format!("ok {}", hex(&PatchName::make(&raw, lower, limit).0))
+        }
+        "uniquify" => {
+            let name = PatchName(unhex(fields.get(1)?)?);
+            let allow = raw_names(fields.get(2)?)?;
+            let disallow = raw_names(fields.get(3)?)?;
+            format!("ok {}", hex(&name.uniquify(&allow, &disallow).0))
+        }
+        "collides" => {
+            let a = PatchName(unhex(fields.get(1)?)?);
+            let b = PatchName(unhex(fields.get(2)?)?);
+            format!("{}", a.collides(&b))
+        }
+        "locparse" => match PatchLocator::from_str(&unhex(fields.get(1)?)?) {
+            Ok(loc) => format!("ok {} {}", show_loc(&loc), hex(&loc.to_string())),
+            Err(_) => "err".to_string(),
+        },
+        "rangeparse" => match PatchRange::from_str(&unhex(fields.get(1)?)?) {
+            Ok(range) => format!("ok {} {}", show_range(&range), hex(&range.to_string())),
+            Err(_) => "err".to_string(),
+        },
+        "offsparse" => match super::PatchOffsets::from_str(&unhex(fields.get(1)?)?) {
+            Ok(offs) => format!("ok {}", show_atoms(&offs.atoms())),
+            Err(_) => "err".to_string(),
+        },
+        "resolve" => {
+            let stack = fake_stack(
+                fields.get(1)?,
+                fields.get(2)?,
+                fields.get(3)?,
+                fields.get(4)?,
+            )?;
+            match PatchLocator::from_str(&unhex(fields.get(5)?)?) {
+                Err(_) => "parse-err".to_string(),
+                Ok(loc) => match loc.resolve_name(&stack) {
+                    Ok(pn) => format!("ok {}", hex(&pn.0)),
+                    Err(e) => format!("err {}", loc_err_kind(&e)),
+                },
+            }
+        }
+        "resolve_names" => {
+            let stack = fake_stack(
+                fields.get(1)?,
+                fields.get(2)?,
+                fields.get(3)?,
+                fields.get(4)?,
+            )?;
+            let allow = constraint(fields.get(5)?)?;
+            let contiguous = *fields.get(6)? == "1";
+            let mut ranges = Vec::new();
+            for s in unhex_list(fields.get(7)?)? {
+                match PatchRange::from_str(&s) {
+                    Ok(range) => ranges.push(range),
+                    Err(_) => return Some("parse-err".to_string()),
+                }
+            }
+            let result = if contiguous {
+                super::range::resolve_names_contiguous(&stack, ranges.iter(), allow)
+            } else {
+                super::range::resolve_names(&stack, ranges.iter(), allow)
+            };
+            match result {
+                Ok(names) => format!("ok {}", hex_names(&names)),
+                Err(e) => format!("err {}", range_err_kind(&e)),
+            }
+        }
+        "urmsg" => {
+            let msg = unhex(fields.get(1)?)?;
+            crate::cmd::undo::verif_parse_undo_redo_message(msg.as_bytes())
+        }
+        "lower" => {
+            // to_lowercase() of a single scalar value, as a list of code points.
+            let cp = u32::from_str_radix(fields.get(1)?, 16).ok()?;
+            let c = char::from_u32(cp)?;
+            c.to_lowercase()
+                .map(|c| format!("{:x}", c as u32))
+                .collect::<Vec<_>>()
+                .join(",")
+        }
+        "lowerstr" => hex(&unhex(fields.get(1)?)?.to_lowercase()),
+        _ => return None,
+    })
+}
+
+/// Dump the Unicode facts `PatchName::make` depends on, for every scalar value whose
+/// classification or lowercase mapping is not the trivial one.
+///
+/// One line per interesting scalar value:
+/// `<cp hex> <flags> <lowercase code points hex, comma separated>` where flags is a
+/// string over `w` (is_whitespace), `c` (is_control), `a` (is_alphanumeric).
+fn dump_unicode(out: &mut impl Write) {
+    for cp in 0u32..=0x10ffff {
+        if let Some(c) = char::from_u32(cp) {
+            let lower: Vec<char> = c.to_lowercase().collect();
+            let trivial_lower = lower.len() == 1 && lower[0] == c;
+            let (w, ctl, an) = (c.is_whitespace(), c.is_control(), c.is_alphanumeric());
+            if !trivial_lower || w || ctl || c.is_ascii() {
+                let mut flags = String::new();
+                if w {
+                    flags.push('w');
+                }
+                if ctl {
+                    flags.push('c');
+                }
+                if an {
+                    flags.push('a');
+                }
+                if flags.is_empty() {
+                    flags.push('-');
+                }
+                let lower = lower
+                    .iter()
+                    .map(|c| format!("{:x}", *c as u32))
+                    .collect::<Vec<_>>()
+                    .join(",");
+                writeln!(out, "{cp:x} {flags} {lower}").ok();
+            }
+        }
+    }
+}
+
+pub(crate) fn eval_main() -> ! {
+    std::panic::set_hook(Box::new(|_| {}));
+    let stdin = std::io::stdin();
+    let stdout = std::io::stdout();
+    let mut out = std::io::BufWriter::new(stdout.lock());
+    for line in stdin.lock().lines() {
+        let Ok(line) = line else { break };
+        let fields: Vec<&str> = line.split('\t').collect();
+        if fields.len() < 2 {
+            continue;
+        }
+        let id = fields[0];
+        if fields[1] == "unicode" {
+            dump_unicode(&mut out);
+            writeln!(out, "{id}\tdone").ok();
+            continue;
+        }
+        let result = std::panic::catch_unwind(|| eval(&fields[1..]));
+        let text = match result {
+            Ok(Some(s)) => s,
+            Ok(None) => "BADREQ".to_string(),
+            Err(_) => "PANIC".to_string(),
+        };
+        writeln!(out, "{id}\t{text}").ok();
+    }
+    out.flush().ok();
+    std::process::exit(0)
+}
